@@ -6,6 +6,7 @@ import (
 	"testing"
 	"time"
 
+	astisub "github.com/asticode/go-astisub"
 	"pgregory.net/rapid"
 )
 
@@ -21,40 +22,46 @@ type c14Case struct {
 	Cues   []cueSpec `json:"cues"`
 	D      int64     `json:"d"`
 	Filler bool      `json:"filler"`
+	// D2 > 0: a second call ForceDuration(D2, Filler2) on the list the first call left (when that list is still well formed)
+	D2      int64 `json:"d2,omitempty"`
+	Filler2 bool  `json:"filler2,omitempty"`
 }
 
 func init() { register("c14", checkC14) }
 
-func checkC14(c c14Case) string {
-	b := buildList(c.Cues)
-	b.sub.ForceDuration(time.Duration(c.D), c.Filler)
+// c14Stage checks one call against the specification. items / snaps / cues describe the list before the call.
+func c14Stage(b *builtList, items []*astisub.Item, snaps []itemSnap, cues []cueSpec, d int64, filler bool, stage string) string {
+	b.sub.ForceDuration(time.Duration(d), filler)
+	if m := b.metaDiff(); m != "" {
+		return m
+	}
 	got := b.sub.Items
 	ctx := func() string {
-		return fmt.Sprintf("in: %s d=%d filler=%v out: %s", fmtSpecs(c.Cues), c.D, c.Filler, fmtItems(got))
+		return fmt.Sprintf("%sin: %s d=%d filler=%v out: %s", stage, fmtSpecs(cues), d, filler, fmtItems(got))
 	}
 	type exp struct {
 		idx  int
 		s, e int64
 	}
 	var want []exp
-	exact := len(c.Cues) > 0 && c.Cues[len(c.Cues)-1].E == c.D
+	exact := len(cues) > 0 && cues[len(cues)-1].E == d
 	if exact {
-		for i, cu := range c.Cues {
+		for i, cu := range cues {
 			want = append(want, exp{i, cu.S, cu.E})
 		}
 	} else {
-		for i, cu := range c.Cues {
-			if cu.S >= c.D {
+		for i, cu := range cues {
+			if cu.S >= d {
 				continue
 			}
 			e := cu.E
-			if e > c.D {
-				e = c.D
+			if e > d {
+				e = d
 			}
 			want = append(want, exp{i, cu.S, e})
 		}
 	}
-	needFiller := c.Filler && !exact && (len(want) == 0 || want[len(want)-1].e < c.D)
+	needFiller := filler && !exact && (len(want) == 0 || want[len(want)-1].e < d)
 	n := len(want)
 	if needFiller {
 		n++
@@ -64,33 +71,57 @@ func checkC14(c c14Case) string {
 	}
 	for k, w := range want {
 		it := got[k]
-		if it != b.items[w.idx] {
+		if it != items[w.idx] {
 			return fmt.Sprintf("position %d: expected original cue #%d; %s", k, w.idx, ctx())
 		}
 		if int64(it.StartAt) != w.s || int64(it.EndAt) != w.e {
 			return fmt.Sprintf("cue #%d is [%d,%d), specification says [%d,%d); %s", w.idx, int64(it.StartAt), int64(it.EndAt), w.s, w.e, ctx())
 		}
-		if m := contentDiff(it, b.snaps[w.idx]); m != "" {
+		if m := contentDiff(it, snaps[w.idx]); m != "" {
 			return fmt.Sprintf("cue #%d: %s", w.idx, m)
 		}
 	}
 	if needFiller {
 		f := got[len(got)-1]
-		if int64(f.StartAt) != c.D-nsMs || int64(f.EndAt) != c.D {
-			return fmt.Sprintf("filler is [%d,%d), expected [%d,%d); %s", int64(f.StartAt), int64(f.EndAt), c.D-nsMs, c.D, ctx())
+		if int64(f.StartAt) != d-nsMs || int64(f.EndAt) != d {
+			return fmt.Sprintf("filler is [%d,%d), expected [%d,%d); %s", int64(f.StartAt), int64(f.EndAt), d-nsMs, d, ctx())
 		}
 		if f.String() == "" {
 			return "filler has no placeholder text; " + ctx()
 		}
-		if b.indexOf(f) >= 0 {
-			return "filler is one of the original cues; " + ctx()
+		for _, it := range items {
+			if it == f {
+				return "filler is one of the cues the list already had; " + ctx()
+			}
 		}
 	}
 	// resulting duration
-	if (needFiller || exact || (len(want) > 0 && want[len(want)-1].e == c.D)) && int64(b.sub.Duration()) != c.D {
-		return fmt.Sprintf("list lasts %d after ForceDuration(%d); %s", int64(b.sub.Duration()), c.D, ctx())
+	if (needFiller || exact || (len(want) > 0 && want[len(want)-1].e == d)) && int64(b.sub.Duration()) != d {
+		return fmt.Sprintf("list lasts %d after ForceDuration(%d); %s", int64(b.sub.Duration()), d, ctx())
 	}
 	return ""
+}
+
+func checkC14(c c14Case) string {
+	b := buildList(c.Cues)
+	if m := c14Stage(b, b.items, b.snaps, c.Cues, c.D, c.Filler, ""); m != "" {
+		return m
+	}
+	if c.D2 <= 0 {
+		return ""
+	}
+	// second call on what the first one left, provided that list still meets the precondition
+	items := append([]*astisub.Item(nil), b.sub.Items...)
+	var cues []cueSpec
+	var snaps []itemSnap
+	for i, it := range items {
+		cues = append(cues, cueSpec{S: int64(it.StartAt), E: int64(it.EndAt), T: itemText(it)})
+		snaps = append(snaps, snapItem(it))
+		if i > 0 && (cues[i].S < cues[i-1].S || cues[i].E < cues[i-1].E) {
+			return ""
+		}
+	}
+	return c14Stage(b, items, snaps, cues, c.D2, c.Filler2, "second call; ")
 }
 
 func c14Class(c c14Case) (bool, []string) {
@@ -212,7 +243,12 @@ func TestC14(t *testing.T) {
 
 	rapidCheck(t, "C14/random", tier(20000, 2000000), func(rt *rapid.T) {
 		maxT := rapid.SampledFrom([]int64{30 * nsMs, 5000 * nsMs, 3600 * 1000 * nsMs}).Draw(rt, "range")
-		cues := makeWellFormed(genCues(rt, 0, 8, maxT, opTexts))
+		cues := makeWellFormed(genCues(rt, 0, 8, maxT, []string{"a", "b", "c", "..."}))
+		if n := len(cues); n > 0 && rapid.IntRange(0, 5).Draw(rt, "fillerlike") == 0 {
+			// a genuine cue that looks like a filler: one millisecond of "..."
+			cues[n-1].T, cues[n-1].E = "...", cues[n-1].S+nsMs
+			cues = makeWellFormed(cues)
+		}
 		var d int64
 		switch rapid.IntRange(0, 3).Draw(rt, "dk") {
 		case 0:
@@ -230,6 +266,15 @@ func TestC14(t *testing.T) {
 		}
 		c := c14Case{Cues: cues, D: d, Filler: rapid.Bool().Draw(rt, "filler")}
 		nt, ls := c14Class(c)
+		if rapid.IntRange(0, 2).Draw(rt, "again") == 0 {
+			// e.g. a list forced to d1 and later to a longer or shorter d2
+			c.D2 = d + rapid.SampledFrom([]int64{nsMs, 2 * nsMs, 1000 * nsMs, -nsMs, -2 * nsMs, 1, 500 * nsMs}).Draw(rt, "d2delta")
+			if c.D2 < nsMs {
+				c.D2 = nsMs
+			}
+			c.Filler2 = rapid.Bool().Draw(rt, "filler2")
+			ls = append(ls, "second-call")
+		}
 		ev.Case(nt, fmt.Sprintf("%v", c), append(ls, "random")...)
 		if nt {
 			ev.Sample("random", c)
